@@ -1,7 +1,7 @@
 """Shared helpers for the formula-shape checks (C05, C07, C10, C11, C13, C06)."""
 from __future__ import annotations
 
-from sa.formula import (Policy, Unsupported, compare, extract_function, inline_calls, project_resolver, reference, show, nested)
+from sa.formula import (Policy, Unsupported, compare, compare_lifted, extract_function, inline_calls, project_resolver, reference, show, nested)
 from sa.loader import AnalysisError, norm_text
 
 VIOLATION_KINDS = ("const", "operator", "binding", "structure")
@@ -27,12 +27,12 @@ def audit(project, chk, rule, qualname, ref_src, entry, policy, what, inline=Tru
         ref = reference(ref_src, entry, call_map=call_map)
     except Unsupported as e:
         raise AnalysisError(f"ANALYSIS-INCONCLUSIVE {fi.short}: formula not readable ({e})")
-    ms = compare(code, ref, policy)
+    ms, _c, _r = compare_lifted(code, ref, policy)
     for alt_entry in (alternatives or []):
         if not ms:
             break
         ref2 = reference(ref_src, alt_entry, call_map=call_map)
-        ms2 = compare(code, ref2, policy)
+        ms2, _c, _r = compare_lifted(code, ref2, policy)
         if not ms2 or (not any(m.kind == "shape" for m in ms2) and (any(m.kind == "shape" for m in ms) or len(ms2) < len(ms))):
             ms, ref = ms2, ref2
     loc = project.loc(fi.module, fi.node)
